@@ -150,4 +150,20 @@ def run(ctx):
                          mp.stream_for(g, x, redraws=k % 2, k=k % 3), mp.stream_for(g, y, k=(k + 1) % 3),
                          restoreA=k % 2, restoreB=(k // 2) % 2)
             traces.append(r.json())
+    # the two ends hold EQUAL BUT DISTINCT parameter objects (as two processes always do): a fresh _Params over the same
+    # group, a deep copy with its own group object, a second IntegerGroup with the same numbers
+    uni.paramset("P1024-equal", grp="I1024")
+    uni.deepcopy_paramset("PEd25519-deepcopy", "PEd25519")
+    uni.paramset("Pi23", grp="i23")
+    uni.int_group("i23eq", *TOY_INT["i23"])
+    uni.paramset("Pi23-equal", grp="i23eq", **{k: unhx(uni.pdesc["Pi23"][k]) for k in "MNS"})
+    uni.deepcopy_paramset("P2048-deepcopy", "P2048")
+    for psA, psB, g in [("P1024", "P1024-equal", "I1024"), ("PEd25519", "PEd25519-deepcopy", "Ed25519"), ("Pi23", "Pi23-equal", "i23"),
+                        ("P2048-deepcopy", "P2048", "I2048")]:
+        q = uni.group(g).order()
+        for k, pairing in enumerate(["AB", "SS", "AB"]):
+            ids = (b"alice", b"bob") if pairing == "AB" else (b"sym",)
+            r = exchange(uni, "equal-objects/%s/%s/%d" % (psA, pairing, k), pairing, psA, b"pw", b"pw", ids, ids,
+                         mp.stream_for(g, (3 + k) % q), mp.stream_for(g, (5 + 2 * k) % q), psB=psB, restoreA=k % 2, restoreB=(k + 1) % 2)
+            traces.append(r.json())
     ctx.validate(traces, uni, what="exchange")
